@@ -28,12 +28,14 @@ inline void begin(const char* f, const char* kind, int nreg, int nscal, int c) {
     kind_ = kind; line = "gen f="; line += f; line += " k="; line += kind;
     for (int r = 0; r < nreg; ++r) { line += " r" + std::to_string(r) + "=";
         for (int i = 0; i < 16; ++i) {
-            if (kind[0] == 'i') rr[r][i] = (c < 3) ? IP[(c * 5 + r * 3 + i * 7) % 16] : (uint32_t)rnd();
+            if (kind[0] == 'i' && kind[1] == 'n' && kind[2] == 'z') { int v = (int)(rnd() % 2000) - 1000; if (v == 0) v = 3; rr[r][i] = (uint32_t)v; }
+            else if (kind[0] == 'i') rr[r][i] = (c < 3) ? IP[(c * 5 + r * 3 + i * 7) % 16] : (uint32_t)rnd();
             else if (kind[1] == '3') rr[r][i] = fbits((float)nz());
             else { if (!(i & 1)) { uint64_t b = dbits(nz()); rr[r][i] = (uint32_t)b; rr[r][i + 1] = (uint32_t)(b >> 32); } }
             if (i) line += ","; hexcat(line, rr[r][i]); } }
     for (int s = 0; s < nscal; ++s) {
-        if (kind[0] == 'i') sv[s] = (c < 3) ? (uint64_t)(int64_t)(int32_t)IP[(c * 3 + s * 5) % 16] : rnd();
+        if (kind[0] == 'i' && kind[1] == 'n' && kind[2] == 'z') { int v = (int)(rnd() % 2000) - 1000; if (v == 0) v = 3; sv[s] = (uint64_t)(int64_t)v; }
+        else if (kind[0] == 'i') sv[s] = (c < 3) ? (uint64_t)(int64_t)(int32_t)IP[(c * 3 + s * 5) % 16] : rnd();
         else if (kind[1] == '3') sv[s] = fbits((float)nz());
         else sv[s] = dbits(nz());
         line += " s" + std::to_string(s) + "="; hexcat(line, sv[s]); }
